@@ -155,7 +155,18 @@ class RepoInterp:
         if name in mod.constants:
             return fold_const(self.repo, mod, name)
         if name in mod.imports:
-            return S("mod:" + mod.imports[name])
+            target = mod.imports[name]
+            m2, _, n2 = target.rpartition(".")
+            mod2 = self.repo.modules.get(m2)
+            if mod2 is not None and mod2 is not mod and n2 in mod2.constants and n2 not in mod2.functions and n2 not in mod2.classes:
+                # a constant defined in another module of the package and imported here: the same object
+                saved = self.cur_fi
+                self.cur_fi = FunctionInfo(mod2, "<module>", ast.parse("def _m(): pass").body[0])
+                try:
+                    return self.on_name(n2, st)
+                finally:
+                    self.cur_fi = saved
+            return S("mod:" + target)
         if name in mod.classes:
             return S("class:" + mod.name + "." + name)
         if name in mod.functions:
@@ -191,6 +202,11 @@ class RepoInterp:
                         return self.inline_call(m, ast.Call(func=ast.Name(id=attr, ctx=ast.Load()), args=[], keywords=[]), obj, [], {}, st)
                     finally:
                         self.self_class = saved_c
+        if attr == "_fields" and isinstance(obj, S) and obj.name.startswith("class:"):
+            mn_, _, cn_ = obj.name[len("class:"):].rpartition(".")
+            ci_f = self.repo.cls(mn_, cn_, required=False)
+            if ci_f is not None and self._nt_fields(ci_f) is not None:
+                return K(tuple(self._nt_fields(ci_f)[0]))  # type: ignore[index]
         if isinstance(obj, S) and obj.name == "mod:inspect" and attr.startswith("CO_"):
             import inspect as _i
             if hasattr(_i, attr):
@@ -213,6 +229,23 @@ class RepoInterp:
         return platform_subscript(obj, key)
 
     def on_call(self, call: ast.Call, fname: Optional[str], fval: Optional[V], args: List[V], kwargs: Dict[str, V], st: State) -> Optional[V]:
+        if isinstance(fval, R) and fval.kind == "partial" and isinstance(call.func, ast.Name) and not kwargs:
+            return self.apply_callable(call.func, list(args), st)  # a local holding functools.partial(f, ...)
+        if kwargs and "**" not in kwargs:
+            # canonical argument form for package callees: leading parameters given by keyword become positional, so
+            # that f(a, b) and f(x=a, y=b) look the same to every hook and rule
+            try:
+                callee_c = self.resolve(call, fval)
+            except Exception:
+                callee_c = None
+            if callee_c is not None and not any(isinstance(a, R) and a.kind == "starred" for a in args):
+                ps_c = callee_c.positional_params()
+                if callee_c.cls is not None and ps_c and ps_c[0] in ("self", "cls") and "staticmethod" not in callee_c.decorators():
+                    ps_c = ps_c[1:]
+                i_c = len(args)
+                while i_c < len(ps_c) and ps_c[i_c] in kwargs:
+                    args.append(kwargs.pop(ps_c[i_c]))
+                    i_c += 1
         if self.call_hook is not None:
             v = self.call_hook(call, fname, fval, args, kwargs, st)
             if v is not None:
@@ -303,9 +336,97 @@ class RepoInterp:
             return self.repo.cls(m, c, required=False)
         return None
 
+    def apply_callable(self, fnode: ast.AST, args: List[V], st: State) -> Optional[V]:
+        """the value of fnode(*args) where fnode is the expression of a callable: a lambda, a local function, a function
+        or method of the package, functools.partial(...) of one, or a builtin the platform catalogue folds"""
+        it = self.interp
+        if isinstance(fnode, ast.Lambda):
+            return it._call_local(it._local_function(fnode, st), list(args), {}, st)
+        fv = it.eval(fnode, st)
+        if isinstance(fv, R) and fv.kind == "localfunc":
+            return it._call_local(fv, list(args), {}, st)
+        if isinstance(fv, R) and fv.kind == "partial":
+            inner = fv.fields["call"].v
+            pre = list(fv.fields["args"].v)
+            fake = ast.Call(func=inner, args=[ast.Name(id=f"__a{i}", ctx=ast.Load()) for i in range(len(pre) + len(args))], keywords=[])
+            sub = st
+            saved = {}
+            for i, v in enumerate(pre + list(args)):
+                saved[f"__a{i}"] = sub.env.get(f"__a{i}")
+                sub.env[f"__a{i}"] = v
+            try:
+                return it.eval(fake, sub)
+            finally:
+                for k, v in saved.items():
+                    if v is None:
+                        sub.env.pop(k, None)
+                    else:
+                        sub.env[k] = v
+        fake = ast.Call(func=fnode, args=[ast.Name(id=f"__a{i}", ctx=ast.Load()) for i in range(len(args))], keywords=[])
+        ast.copy_location(fake, fnode)
+        saved2 = {}
+        for i, v in enumerate(args):
+            saved2[f"__a{i}"] = st.env.get(f"__a{i}")
+            st.env[f"__a{i}"] = v
+        try:
+            r = it.eval(fake, st)
+        finally:
+            for k, v in saved2.items():
+                if v is None:
+                    st.env.pop(k, None)
+                else:
+                    st.env[k] = v
+        return None if isinstance(r, U) else r
+
     def generic_call(self, call: ast.Call, fname: Optional[str], fval: Optional[V], args: List[V], kwargs: Dict[str, V], st: State) -> Optional[V]:
         meth = call.func.attr if isinstance(call.func, ast.Attribute) else None
         it = self.interp
+        tailname = (fname or "").split(".")[-1]
+        if tailname == "partial" and (fname in ("partial", "functools.partial")) and call.args:
+            return R("partial", call=K(call.args[0]), args=K(tuple(args[1:])))
+        if fname == "zip" and args and not kwargs:
+            cols = [it.iterate(a, st) for a in args]
+            if all(c is not None for c in cols):
+                return K(tuple(K(tuple(r)) for r in zip(*cols)))
+            return None
+        if tailname in ("takewhile", "dropwhile", "filter", "map", "starmap") and fname in (tailname, "itertools." + tailname) and len(call.args) == 2 and not kwargs:
+            seq = it.iterate(args[1], st)
+            if seq is None:
+                return None
+            out_seq: List[V] = []
+            dropping = True
+            for x in seq:
+                xs = [x]
+                if tailname == "starmap":
+                    xs2 = it.iterate(x, st)
+                    if xs2 is None:
+                        return None
+                    xs = list(xs2)
+                if tailname == "filter" and isinstance(call.args[0], ast.Constant) and call.args[0].value is None:
+                    r: Optional[V] = x
+                else:
+                    r = self.apply_callable(call.args[0], xs, st)
+                if r is None or st.pending is not None:
+                    return None
+                if tailname in ("map", "starmap"):
+                    out_seq.append(r)
+                    continue
+                t = it._value_truth(call.args[0], r, st)
+                if t is None:
+                    return None
+                if tailname == "filter":
+                    if t:
+                        out_seq.append(x)
+                elif tailname == "takewhile":
+                    if not t:
+                        break
+                    out_seq.append(x)
+                else:
+                    if dropping and t:
+                        continue
+                    dropping = False
+                    out_seq.append(x)
+            return K(tuple(out_seq))
         if fname in ("all", "any") and len(args) == 1:
             seq = it.iterate(args[0], st)
             if seq is not None and all(isinstance(x, K) for x in seq):
@@ -318,14 +439,20 @@ class RepoInterp:
         if fname in ("min", "max") and len(args) == 1 and any(k.arg == "key" for k in call.keywords):
             seq = it.iterate(args[0], st)
             lam = [k.value for k in call.keywords if k.arg == "key"][0]
-            if seq is None or not seq or not (isinstance(lam, ast.Lambda) and len(lam.args.args) == 1):
+            if seq is None or not seq:
                 return None
             keyed = []
             for x in seq:
-                sub = st.fork()
-                sub.heap, sub._next, sub.effects = st.heap, st._next, st.effects
-                sub.env[lam.args.args[0].arg] = x
-                kk = self._sort_key(it.eval(lam.body, sub))
+                if isinstance(lam, ast.Lambda) and len(lam.args.args) == 1:
+                    sub = st.fork()
+                    sub.heap, sub._next, sub.effects = st.heap, st._next, st.effects
+                    sub.env[lam.args.args[0].arg] = x
+                    kval: Optional[V] = it.eval(lam.body, sub)
+                else:
+                    kval = self.apply_callable(lam, [x], st)
+                if kval is None:
+                    return None
+                kk = self._sort_key(kval)
                 if kk is None or (kk[0] == 1 and any(p[0] == 9 for p in kk[1])):
                     return None
                 keyed.append((kk, x))
@@ -342,12 +469,16 @@ class RepoInterp:
                 kv: V = x
                 if keyf:
                     lam = keyf[0]
-                    if not (isinstance(lam, ast.Lambda) and len(lam.args.args) == 1):
-                        return None
-                    sub = st.fork()
-                    sub.heap, sub._next, sub.effects = st.heap, st._next, st.effects
-                    sub.env[lam.args.args[0].arg] = x
-                    kv = it.eval(lam.body, sub)
+                    if isinstance(lam, ast.Lambda) and len(lam.args.args) == 1:
+                        sub = st.fork()
+                        sub.heap, sub._next, sub.effects = st.heap, st._next, st.effects
+                        sub.env[lam.args.args[0].arg] = x
+                        kv = it.eval(lam.body, sub)
+                    else:
+                        kv2 = self.apply_callable(lam, [x], st)
+                        if kv2 is None:
+                            return None
+                        kv = kv2
                 kk = self._sort_key(kv)
                 if kk is None:
                     return None
@@ -365,6 +496,49 @@ class RepoInterp:
                 return st.alloc("list", [K(x) for x in fval.v.split(*[a.v for a in args])])
             except Exception:
                 return None
+        # ---- NamedTuple classes of the package (always modelled: they are plain data) -------------------
+        if isinstance(call.func, (ast.Name, ast.Attribute)) and not isinstance(fval, (R, Ref)):
+            dn = dotted(call.func) or ""
+            ci_nt = self.repo.resolve_class(self.cur_fi.module, dn) if dn else None
+            if ci_nt is not None and self._nt_fields(ci_nt) is not None:
+                names, defaults = self._nt_fields(ci_nt)  # type: ignore[misc]
+                vals: Dict[str, V] = {}
+                for n_, v in zip(names, args):
+                    vals[n_] = v
+                for k_, v in kwargs.items():
+                    vals[k_] = v
+                for n_ in names:
+                    if n_ not in vals:
+                        if n_ in defaults:
+                            saved_fi = self.cur_fi
+                            self.cur_fi = FunctionInfo(ci_nt.module, ci_nt.name + ".<class body>", ast.parse("def _m(): pass").body[0], ci_nt)
+                            try:
+                                vals[n_] = self.interp.eval(defaults[n_], st)
+                            finally:
+                                self.cur_fi = saved_fi
+                        else:
+                            st.pending = st.pending or "TypeError"
+                            return U("missing NamedTuple field")
+                return R("nt", __cls__=K(ci_nt.fq), __fields__=K(tuple(names)), **{n_: vals[n_] for n_ in names})
+        if isinstance(fval, R) and fval.kind == "nt" and meth is not None:
+            names = list(fval.fields["__fields__"].v)
+            if meth == "_replace" and not args:
+                return fval.replace(**kwargs)
+            if meth == "_asdict" and not args:
+                items = tuple((K(n_), fval.fields[n_]) for n_ in names)
+                return st.alloc("dict", dict(items)) if self.heap else R("dict", items=items)
+            ci_m = self.class_of_nt(fval)
+            m_nt = self.repo.method(ci_m, meth) if ci_m is not None else None
+            if m_nt is not None:
+                return self.inline_call(m_nt, call, fval, args, kwargs, st)
+        if isinstance(call.func, ast.Attribute) and meth is not None and not isinstance(fval, (R, Ref, K)):
+            # Class.classmethod(...) on a NamedTuple class, e.g. _Settings.from_config(cfg)
+            dn2 = dotted(call.func.value) or ""
+            ci_c = self.repo.resolve_class(self.cur_fi.module, dn2) if dn2 else None
+            if ci_c is not None and self._nt_fields(ci_c) is not None:
+                m_c = self.repo.method(ci_c, meth)
+                if m_c is not None:
+                    return self.inline_call(m_c, call, S("class:" + ci_c.fq), args, kwargs, st)
         if self.construct_instances and isinstance(call.func, ast.Name) and not isinstance(fval, (R, Ref)):
             ci_new = self.repo.resolve_class(self.cur_fi.module, call.func.id)
             if ci_new is not None and self.repo.method(ci_new, "__init__") is None:
@@ -402,6 +576,25 @@ class RepoInterp:
                         self.self_class = saved
         return None
 
+    def _nt_fields(self, ci: Any) -> Optional[Tuple[List[str], Dict[str, ast.AST]]]:
+        """(field names in order, defaults) when ci is a typing.NamedTuple class, else None"""
+        if not any(b.split(".")[-1] == "NamedTuple" for b in ci.bases):
+            return None
+        names: List[str] = []
+        defaults: Dict[str, ast.AST] = {}
+        for x in ci.node.body:
+            if isinstance(x, ast.AnnAssign) and isinstance(x.target, ast.Name):
+                names.append(x.target.id)
+                if x.value is not None:
+                    defaults[x.target.id] = x.value
+        return names, defaults
+
+    def class_of_nt(self, v: V) -> Any:
+        if isinstance(v, R) and v.kind == "nt":
+            m, _, c = v.fields["__cls__"].v.rpartition(".")
+            return self.repo.cls(m, c, required=False)
+        return None
+
     def _sort_key(self, v: V) -> Any:
         if isinstance(v, K) and isinstance(v.v, (str, int, float)):
             return (0, v.v)
@@ -419,9 +612,9 @@ class RepoInterp:
 
     def resolve(self, call: ast.Call, fval: Optional[V] = None) -> Optional[FunctionInfo]:
         f = call.func
-        if isinstance(f, ast.Name) and isinstance(fval, S) and fval.name.startswith("func:"):
+        if isinstance(f, ast.Name) and isinstance(fval, S) and (fval.name.startswith("func:") or (fval.name.startswith("mod:monkeytype.") and f.id not in self.cur_fi.module.imports)):
             # a call through a local variable / parameter that holds a function of the package
-            fq = fval.name[len("func:"):]
+            fq = fval.name.split(":", 1)[1]
             for modname in sorted(self.repo.modules, key=len, reverse=True):
                 if fq.startswith(modname + "."):
                     return self.repo.modules[modname].functions.get(fq[len(modname) + 1:])
